@@ -302,7 +302,7 @@ def gen_price_case(rng, tier, classes):
     cls = rng.choice(classes)
     cfg = {"cls": cls, "kw": configs.rand_kw(rng, cls, allow_input=True, max_period=20)}
     if rng.random() < 0.5:
-        cfg["kw"]["round_value"] = rng.choice([6, 8, 10])
+        cfg["kw"]["round_value"] = rng.choice([6, 8, 10, 12])
     elif rng.random() < 0.2:
         cfg["kw"]["round_value"] = rng.choice([2, 3])
     else:
